@@ -33,6 +33,8 @@ URI_PREFIXES = [
     # names that are hostile to anything that treats a registered name as a pattern or a template
     "http://x.org/q?id=", "http://x.org/a+b/", "u:(x)/", "u:[a]", "u:$", "u:^a", "u:\\", "u:%20", "u:{0}",
     "u:a*", "u:.",
+    # a registered name that itself starts with a decoration
+    "<u:",
 ]
 RARE_URI_PREFIXES = ["", "u"]
 
@@ -79,6 +81,15 @@ def uri_probes(uri_pool, extra_tails=("1", "x/y", ""), alphabet=None, replaced=T
             add(p + " ")           # white space is part of the identifier / breaks the match in front
             add(" " + p + "1")
             add(p.swapcase() + "1")
+            # the URI in the decorations it travels in (N-Triples / Turtle brackets, quotes, a BOM or a tab in
+            # front, "URL:"): not the registered prefix any more - unless a registered prefix starts that way
+            add("<" + p + "1>")
+            add("<" + p + ">")
+            add('"' + p + '1"')
+            add("\ufeff" + p + "1")
+            add("\t" + p + "1")
+            add("[" + p + "1]")
+            add("URL:" + p + "1")
             add(p + "%20?x=1&y=2#frag")
             add(p + "L" * 300)     # a long identifier
             tails = ("1\n2", "1\n", "\n", "\r\n1", "\t1", "\x001", "a\u2028b", "x\x85", "<1>", "1 2")
